@@ -6,6 +6,7 @@ from typing import TYPE_CHECKING
 from fortls.constants import (
     BLOCK_TYPE_ID,
     CLASS_TYPE_ID,
+    INTERFACE_TYPE_ID,
     KEYWORD_ID_DICT,
     SUBROUTINE_TYPE_ID,
 )
@@ -40,6 +41,17 @@ class Subroutine(Scope):
 
     def is_mod_scope(self):
         return self.mod_scope
+
+    def get_implicit(self):
+        # An interface body has its own implicit mapping, the IMPLICIT statements
+        # of the host do not reach it (a separate module procedure's do)
+        if (
+            self.parent is not None
+            and self.parent.get_type() == INTERFACE_TYPE_ID
+            and not self.is_mod_scope()
+        ):
+            return self.implicit_vars
+        return super().get_implicit()
 
     def is_callable(self):
         return True
